@@ -132,7 +132,8 @@ def handle : List Sexp → Option Sexp
       | none => pure (.atom "err")
       | some (out, b) =>
           let ids := (dedup (writes ops)).mergeSort
-          pure (.list [.atom "ok", mstreamToSexp out, bufsToSexp b ids, streamToSexp (unmark out)])
+          pure (.list [.atom "ok", mstreamToSexp out, bufsToSexp b ids, streamToSexp (unmark out),
+                       ofBool (chainSelOk ops [] (markAll s))])
   | [.atom "fill", c, s] => do
       let c ← cfg? c
       let s ← streamOfSexp? s
